@@ -2,9 +2,10 @@
     Only ExtrOcamlBasic is used: N/positive/nat stay the extracted inductive types.
     The path is relative to the directory coqc runs in (coq/). *)
 From Coq Require Import Extraction ExtrOcamlBasic NArith.
-From XV Require Import C13.Ops13 C13.Spec13 C13.Model13 C13.Abs13.
+From XV Require Import C13.Ops13 C13.Spec13 C13.Model13 C13.Abs13 C13.AttrMap13.
 Extraction Language OCaml.
 Extraction "../ocaml/C13/gen_c13.ml"
   init_heap step_cfg step run_cfg cfg_fixed cfg_found nd parent first_child last_child next_sib prev_sib pub_odoc kids
   exc_code tcode kid_ok valid_name N.add N.mul attr_value a_value get_user_data u_get s_by_id_ok id_find amap_find
-  sinit sstep srun abs.
+  sinit sstep srun abs
+  valid svalid name_point s_name_point amap_find_bis amap_put_bis.
